@@ -71,6 +71,12 @@ _EMPTY = {"sum": 0.0, "prod": 1.0}
 
 def _venc(c, dtype, zeros):
     """cell -> value; in the 'zeros' variant even identifiers stand for the value 0 (falsy data for all / any / prod / min)"""
+    if zeros == "inf":           # float data with infinities of both signs (no NaN among them)
+        if dtype == "f" and c >= 0 and c % 3 == 0:
+            return np.inf
+        if dtype == "f" and c >= 0 and c % 3 == 1:
+            return -np.inf
+        return A.cell_enc(c, dtype)
     if zeros and c >= 0 and c % 2 == 0:
         return {"f": 0.0, "i": 0, "b": False}[dtype]
     return A.cell_enc(c, dtype)
@@ -139,13 +145,13 @@ def replay(scn):
     import warnings
     warnings.simplefilter("ignore")
     try:
-      for zeros in (False, True):
+      for zeros in ((False, True, "inf") if a_abs["dtype"] == "f" else (False, True)):
         a = A.gamma(a_abs, codec, [kinds[d] for d in a_abs["dims"]])
         dt = a_abs["dtype"]
         if zeros:
             for k, c in enumerate(a_abs["cells"]):
-                if c >= 0 and c % 2 == 0:
-                    a.values[np.unravel_index(k, a.values.shape)] = _venc(c, dt, True)     # (row-major cell k, whatever the memory layout)
+                if c >= 0 and (c % 2 == 0 or zeros == "inf"):
+                    a.values[np.unravel_index(k, a.values.shape)] = _venc(c, dt, zeros)     # (row-major cell k, whatever the memory layout)
         before = A.snapshot(a)
         forms = (0, 1) if i["spec"]["k"] == "tuple" else (0,)
         for func in FUNCS:
@@ -168,7 +174,7 @@ def replay(scn):
                 if what is None:
                     what = _check_result(res, exp, expected_vals, codec, kinds) or None
                 if what:
-                    viol.append(dict(what=what, sig=signature(scn, func, "form%d%s" % (form, "/zeros" if zeros else "")), variant="%s form=%d zeros=%s" % (func, form, zeros)))
+                    viol.append(dict(what=what, sig=signature(scn, func, "form%d%s" % (form, ("/" + ("inf" if zeros == "inf" else "zeros")) if zeros else "")), variant="%s form=%d zeros=%s" % (func, form, zeros)))
         if zeros:
             continue
         # percentile (a library function): single axis, NaN propagates as in NumPy
